@@ -15,7 +15,7 @@ fn main() {
     let args: Vec<String> = std::env::args().collect();
     if args.len() < 2 { eprintln!("usage: rv <ID> quick|thorough [--replay FILE]"); std::process::exit(2) }
     if args[1] == "list" {
-        for c in rv::props::all() { println!("{}", c.id) }
+        for c in rv::props::all() { println!("{} {}", c.id, c.level) }
         return
     }
     if args[1] == "worker" {
